@@ -118,6 +118,32 @@ theorem C13_buffer_layout (f : Fmt) (t : Int) (amp : Nat) (buf32 : List Int)
 
 example : (List.replicate buf32Alloc (0 : Int)).length = buf32Alloc := List.length_replicate ..
 
+/-- whatever `libxmp_mixer_get_ticksize` computes (valid quotient, refusal −1), the tick size
+used for the frame is positive and at most `XMP_MAX_FRAMESIZE / 2`; a valid quotient inside that
+range is used unchanged (up to the anticlick minimum), so the rate really selects the frame length. -/
+theorem C13_ticksize_guard (calc : Option Int) :
+    0 < prepareTicksize (ticksizeOf calc) ∧ prepareTicksize (ticksizeOf calc) ≤ maxFramesize / 2 ∧
+    (∀ c, calc = some c → 2 ^ anticlickShift ≤ c → c ≤ (maxFramesize / 2 : Nat) →
+      (prepareTicksize (ticksizeOf calc) : Int) = c) := by
+  have hm : maxFramesize = 24585 := rfl
+  have ha : anticlickShift = 3 := rfl
+  refine ⟨?_, prepareTicksize_le _, ?_⟩
+  · unfold prepareTicksize ticksizeOf
+    rw [hm, ha]
+    cases calc with
+    | none => simp
+    | some c =>
+      simp only
+      split <;> split <;> omega
+  · intro c hc h1 h2
+    subst hc
+    unfold prepareTicksize ticksizeOf
+    rw [hm, ha] at *
+    simp only
+    split <;> split <;> omega
+
+example : (prepareTicksize (ticksizeOf (some 882)) : Int) = 882 := by decide
+
 /-- whole-frame form of the two encoding relations: switching `XMP_FORMAT_8BIT` on keeps,
 sample by sample, the high byte; switching `XMP_FORMAT_UNSIGNED` on flips, sample by sample,
 the top bit — for the same accumulator buffer (the same music). -/
